@@ -210,7 +210,7 @@ EXTRA = {
  "C13": " Pool decisions for all three rules with the header chain on a competing fork (one above / level with / one below the body head); decisions taken by a node closed and reopened right before them (start-up index rebuild).",
  "C14": " A weight-boundary operation: a fan-out and its consolidating child in the pool, fillers walking the pool weight across the mineable limit, the mineable set assembled and weighed after every step.",
  "C16": " A boundary world whose archive header commits to exactly 1024 outputs; hostile archives in which an unspent leaf is re-labelled with its leaf hash recomputed (sibling spent / unspent).",
- "C17": " Two archive-server threads per run (txhashset_read of the head / its parent: every handed-out file must be the finished archive, which must unpack completely) and kernel look-ups among the readers. Deterministic companion: body head on a fork with transactions while the header chain is on a heavier header-only fork with fewer kernels (24 / 96 states), every kernel of the body chain looked up through get_kernel_height from a helper thread — a look-up that does not return within 2 x 30 s holds the header MMR lock for ever (defect 56339d478, found by the concurrent runs).",
+ "C17": " Two archive-server threads per run (txhashset_read of the head / its parent: every handed-out file must be the finished archive, which must unpack completely) and kernel look-ups among the readers. Deterministic companion: body head on a fork with transactions while the header chain is on a heavier header-only fork with fewer kernels (24 / 96 states), every kernel of the body chain looked up through get_kernel_height from a helper thread — a look-up that does not return within 2 x 30 s holds the header MMR lock for ever (defect 56339d478, found by the concurrent runs); 20 other read calls of the API / sync code (get_header_for_output, get_merkle_proof_for_pos, unspent_outputs_by_pmmr_index, block_height_range_to_pmmr_indices, get_last_n_*, fork_point, check_txhashset_needed, txhashset_archive_header[_header_only], get_locator_hashes, difficulty_iter, get_header_by_height) must come back without a panic in the same state.",
  "C19": " The limit cases also under Mainnet parameters in a process of their own (unknown-type bodies of 47 999 .. 1 000 000 bytes and up to the 5.4 MB limit, each followed by a sentinel); handshake followed by traffic in the same segment; self connection after 1 / 99 / 150 outbound handshakes.",
 }
 
